@@ -29,9 +29,9 @@ import (
 	bleve "github.com/blevesearch/bleve/v2"
 	"github.com/blevesearch/bleve/v2/analysis/analyzer/keyword"
 	"github.com/blevesearch/bleve/v2/index/scorch"
-	"path/filepath"
 	"github.com/blevesearch/bleve/v2/mapping"
 	"github.com/blevesearch/bleve/v2/search/query"
+	"path/filepath"
 
 	"verif/harness/internal/bx"
 	"verif/harness/internal/core"
